@@ -135,6 +135,7 @@ type Env struct {
 	ownedMaps map[string]bool // heap map names of owned slice fields
 	rec      *[]string       // when non-nil: names of heap maps read (footprint recording)
 	revealed map[string]bool // opaque spec predicates revealed in the function being verified
+	rangeKeySort string    // key sort of the map range of the function being verified (spec: rangevisited)
 }
 
 type mapType struct {
